@@ -383,6 +383,15 @@ class IntegralGenerator:
             for blockmap, contributions in sorted(block_contributions.items())
             for blockdata in contributions
         ]
+        if self.ir.part == TensorPart.diagonal:
+            # Only blocks whose test and trial dofs coincide lie on the diagonal
+            # (not e.g. the '+'/'-' blocks of an interior facet integral or the
+            # blocks coupling different components of a vector element)
+            blocks = [
+                (blockmap, blockdata)
+                for blockmap, blockdata in blocks
+                if len(blockmap) != 2 or blockmap[0] == blockmap[1]
+            ]
 
         block_groups = collections.defaultdict(list)
 
@@ -543,7 +552,7 @@ class IntegralGenerator:
             tables += table
             # Define B_rhs = fw * arg_factors
             insert_rank = block_rank
-            if self.ir.part == TensorPart.diagonal:
+            if self.ir.part == TensorPart.diagonal and block_rank == 2:
                 insert_rank = 1
                 B_indices = [B_indices[0]]
             B_rhs = L.float_product([fw] + arg_factors)
